@@ -48,6 +48,10 @@ func init() {
 func init() {
 	const comp = "internal/machine/script/compiler/compiler.go"
 	addMutants(
+		Mutant{Property: "C08", Name: "monetary-literal-memoised-by-text", File: comp,
+			Old: "\tcase *parser2.LitMonetaryContext:\n\t\ttyp, assetAddr, compErr := p.VisitExpr(c.Monetary().GetAsset(), false)", New: "\tcase *parser2.LitMonetaryContext:\n\t\tif addr, ok := p.varIdx[c.GetText()]; ok {\n\t\t\tif push {\n\t\t\t\tp.PushAddress(addr)\n\t\t\t}\n\t\t\treturn machine.TypeMonetary, &addr, nil\n\t\t}\n\t\ttyp, assetAddr, compErr := p.VisitExpr(c.Monetary().GetAsset(), false)", Expect: "R08f:"},
+		Mutant{Property: "C08", Name: "monetary-amount-text-logged", File: comp,
+			Old: "\tcase *parser2.LitMonetaryContext:\n\t\ttyp, assetAddr, compErr := p.VisitExpr(c.Monetary().GetAsset(), false)", New: "\tcase *parser2.LitMonetaryContext:\n\t\tif len(c.GetText()) == 0 {\n\t\t\treturn 0, nil, LogicError(c, errors.New(\"empty monetary\"))\n\t\t}\n\t\ttyp, assetAddr, compErr := p.VisitExpr(c.Monetary().GetAsset(), false)", Expect: "none", Benign: true},
 		Mutant{Property: "C08", Name: "save-pushes-address-of-left-operand", File: comp,
 			Old:    "\t\ttyp, _, compErr = p.VisitExpr(mon, true)\n\t\tif compErr != nil {\n\t\t\treturn compErr\n\t\t}\n\t\tif typ != machine.TypeMonetary {\n\t\t\treturn LogicError(c, fmt.Errorf(\n\t\t\t\t\"save monetary from account: the first expression should be of type 'monetary' instead of '%s'\", typ))\n\t\t}\n",
 			New:    "\t\ttyp, addr, compErr = p.VisitExpr(mon, false)\n\t\tif compErr != nil {\n\t\t\treturn compErr\n\t\t}\n\t\tif typ != machine.TypeMonetary {\n\t\t\treturn LogicError(c, fmt.Errorf(\n\t\t\t\t\"save monetary from account: the first expression should be of type 'monetary' instead of '%s'\", typ))\n\t\t}\n\t\tp.PushAddress(*addr)\n",
